@@ -16,7 +16,7 @@ _exp = {}
 
 def gen(rng, tier):
     cases = []
-    n = 260 if tier == "quick" else 9000
+    n = 260 if tier == "quick" else 3000
     for i in range(n):
         e, info = elfgen.sample_elf(rng)
         if rng.random() < 0.5:
